@@ -7,6 +7,9 @@ contents; compared with an oracle written from the statement, plus the relationa
 "option k == a line holding only the k-th target".
 Replay: the real runner on a real directory with a real index (`db create`), stdout captured.
 """
+import os as _os
+_os.environ["XH_NO_PATCH"] = "1"   # this process replays on the real code: never patch zorg here
+
 import contextlib
 import importlib
 import importlib.util
